@@ -271,16 +271,26 @@ def run_cwd_cases(_):
               '+++ "b/src/\\303\\244 \\"q\\".txt"\n@@ -1 +1 @@\n-a\n+b\n').encode()
     stat = (b"commit " + H40.encode() + b"\n\n src/{old.rs => new.rs} | 4 ++--\n old.txt => new.txt      | 2 +-\n"
             b" .../long/dir/name/file.txt | 3 ++-\n src/plain.rs | 1 +\n 4 files changed\n")
-    for label, data, extra, meant_set in (
+    def quoted_diff(esc):
+        return ('diff --git "a/%s" "b/%s"\n--- "a/%s"\n+++ "b/%s"\n@@ -1 +1 @@\n-a\n+b\n' % (esc, esc, esc, esc)).encode()
+    # escapes at the start, in the middle and at the very end of the name; every kind of escape git writes
+    more_quoted = [("docs/caf\\303\\251", "docs/caf\u00e9"), ("\\303\\234bersicht", "\u00dcbersicht"),
+                   ("src/\\346\\226\\207\\346\\241\\243/\\350\\257\\264\\346\\230\\216", "src/\u6587\u6863/\u8bf4\u660e"),
+                   ("tab\\there", "tab\there"), ("back\\\\slash", "back\\slash"), ("end\\\\", "end\\"), ('q\\"', 'q"')]
+    for label, data, extra, meant_set in [
+            ("quoted-name:" + esc, quoted_diff(esc), [], {os.path.join(repo, name)}) for esc, name in more_quoted] + list((
             ("quoted-name", quoted, [], {os.path.join(repo, 'src/\u00e4 "q".txt')}),
             ("diffstat-not-a-path", stat, ["--relative-paths"], {os.path.join(repo, "src/plain.rs")}),
             ("placeholder-in-name", b"diff --git a/tpl/{line}.txt b/tpl/{line}.txt\n--- a/tpl/{line}.txt\n+++ b/tpl/{line}.txt\n"
-                                    b"@@ -7 +7 @@\n-a\n+b\n", [], {os.path.join(repo, "tpl/{line}.txt")})):
+                                    b"@@ -7 +7 @@\n-a\n+b\n", [], {os.path.join(repo, "tpl/{line}.txt")}))):
         a = ["--no-gitconfig", "--paging=never", "--detect-dark-light=never", "--line-numbers", "--hyperlinks",
              "--hyperlinks-file-link-format=file://{path}", "--hyperlinks-commit-link-format=c://{commit}"] + extra
         p = subprocess.run([build.BIN] + a, input=data, env=env, cwd=repo, stdout=subprocess.PIPE, stderr=subprocess.PIPE, timeout=30)
         n += 1
         targets = set(norm(t.decode("utf-8", "replace").split("#")[0]) for t in re.findall(rb"\x1b\]8;;file://([^\x1b\x07]*)", p.stdout))
+        # (a control character in a name is percent-encoded in the URL: the link names the file after decoding)
+        from urllib.parse import unquote
+        targets = set(t if t in meant_set else unquote(t) for t in targets)
         if not targets or not targets <= meant_set:
             v = Violation("cwd:wrong-target:" + label, "[%s] links point at %s, the file(s) meant: %s"
                           % (label, sorted(targets), sorted(meant_set)), data.split(b"\n")[:-1])
